@@ -63,18 +63,18 @@ pub fn hex(b: &[u8]) -> String {
 }
 
 /// Printable escaping used in observation lines: bytes outside [0x21,0x7e] and
-/// '%' become %XX, so that one observation is one whitespace-free token.
+/// braces become {XX}, so that one observation is one whitespace-free token.
 pub fn esc(b: &[u8]) -> String {
     let mut s = String::new();
     for &c in b {
-        if c > 0x20 && c < 0x7f && c != b'%' {
+        if c > 0x20 && c < 0x7f && c != b'{' && c != b'}' {
             s.push(c as char);
         } else {
-            s.push_str(&format!("%{:02X}", c));
+            s.push_str(&format!("{{{:02X}}}", c));
         }
     }
     if s.is_empty() {
-        s.push_str("%_");
+        s.push_str("{}");
     }
     s
 }
